@@ -1,6 +1,6 @@
 (* C11 — property theorems (statements only; proofs live in Proofs.v; vocabulary in Spec.v / Model.v). *)
 From Coq Require Import List NArith Bool.
-Require Import QV.C11.Model QV.C11.Spec QV.C11.Proofs QV.C11.Proofs_load QV.C11.Proofs_kill.
+Require Import QV.C11.Model QV.C11.Spec QV.C11.Proofs QV.C11.Proofs_load QV.C11.Proofs_kill QV.C11.Guard QV.C11.Proofs_guard.
 Import ListNotations.
 Open Scope N_scope.
 
@@ -128,3 +128,36 @@ Theorem C11_hypotheses_satisfiable :
             /\ guard_C11_cycle (disk_of ex_store) ex_cache (OOverwrite ex_tmpl) = true.
 Proof. exact hypotheses_satisfiable. Qed.
 Print Assumptions C11_hypotheses_satisfiable.
+
+(* ROUND 3: ONE GUARD ON THE TRANSACTION BUFFER.  guard_C11_tx (Guard.v) looks at the buffer the encoder builds, not at
+   the template: its keys are duplicate free and every reference of a buffered document goes to an entry written
+   earlier or to an identifier of the old storage from which nothing written is reachable.  Under this guard alone
+   (no guard_C11_dup_id, no guard_C11_cycle) the three clauses hold for every crash prefix and both kinds of
+   interruption ... *)
+Theorem C11_crash_safe_tx : forall ck v b d c o k,
+  safe v b = true -> wf d c -> all_load (view d) -> del_in_scope d o -> guard_C11_tx d c o = true ->
+  let steps := steps_of (plan_of v b d c o) in
+  let d' := after_crash ck b steps k d in
+  (main d' <> None /\ all_load (view d')) /\
+  (forall i, lookup i (view d') = lookup i (view d) \/ lookup i (view d') = lookup i (view (run steps d))) /\
+  (no_publish (firstn k steps) = true -> main d' = main d) /\
+  (ck = Raised -> (k < length steps)%nat ->
+   match b with BDict => True | BFs => tmpf d' = None | BZip => tmpz d' = None end).
+Proof. exact crash_safe_tx_kinds. Qed.
+Print Assumptions C11_crash_safe_tx.
+
+(* ... the new guard is implied by the two guards of C11_crash_safe ... *)
+Theorem C11_tx_guard_weaker : forall d c o,
+  wf d c -> all_load (view d) -> op_in_scope d o -> guard_C11_cycle d c o = true -> guard_C11_tx d c o = true.
+Proof. exact guards_imply_tx. Qed.
+Print Assumptions C11_tx_guard_weaker.
+
+(* ... and strictly weaker: a template in which two different objects carry one identifier (outside
+   guard_C11_dup_id) whose buffer is good, with at least two primitive steps on every backend *)
+Theorem C11_tx_guard_strictly_weaker :
+  wf (disk_of tx_ex_store) tx_ex_cache /\ all_load (view (disk_of tx_ex_store)) /\
+  guard_C11_dup_id tx_ex_tmpl = false /\
+  guard_C11_tx (disk_of tx_ex_store) tx_ex_cache (OOverwrite tx_ex_tmpl) = true /\
+  forall b, (2 <= length (steps_of (plan_of current b (disk_of tx_ex_store) tx_ex_cache (OOverwrite tx_ex_tmpl))))%nat.
+Proof. exact tx_guard_strictly_weaker. Qed.
+Print Assumptions C11_tx_guard_strictly_weaker.
